@@ -407,6 +407,24 @@ pub fn detect_profile_info(profile: &[u8]) -> Result<IccProfileInfo> {
                     [b'c', b'u', b'r', b'v', 0, 0, 0, 0, 0, 0, 0, 1, a, b] => {
                         KnownIccTrc::ParametricGamma(u32::from_be_bytes([0, *a, *b, 0]))
                     }
+                    // 4096-entry table, as written by `colour_encoding_to_icc` for PQ and HLG
+                    [b'c', b'u', b'r', b'v', 0, 0, 0, 0, 0, 0, 0x10, 0, lut @ ..]
+                        if lut.len() == 4096 * 2 =>
+                    {
+                        let is_table = |table: Vec<u16>| {
+                            table
+                                .iter()
+                                .zip(lut.chunks_exact(2))
+                                .all(|(v, b)| v.to_be_bytes() == *b)
+                        };
+                        if is_table(crate::tf::pq_table(4096)) {
+                            KnownIccTrc::Pq
+                        } else if is_table(crate::tf::hlg_table(4096)) {
+                            KnownIccTrc::Hlg
+                        } else {
+                            continue;
+                        }
+                    }
                     _ => continue,
                 };
 
